@@ -186,6 +186,51 @@ def genall_c07(info):
     gen_C07(info)
 
 
+def _gen_tool(info, tool, tag, extra_args=()):
+    """run tools/<tool> into a scratch directory and copy its output into Gen/ (unchanged files keep
+    their time stamps, so lake does not rebuild them); returns True on success"""
+    import shutil
+    import tempfile
+    tmpdir = tempfile.mkdtemp(dir='/var/tmp', prefix='hv-gen-')
+    try:
+        code, out = _run_tool([tool, '--out-dir', tmpdir, '--quiet'] + list(extra_args), timeout=1800)
+        if code != 0:
+            info['failed'].append({'id': tag, 'log': out[-2000:]})
+            return False
+        produced = set(os.listdir(tmpdir))
+        # part modules of an earlier run that this run no longer produces
+        prefix = tag.upper() + '_'
+        for fn in os.listdir(GEN_DIR):
+            if fn.startswith(prefix) and fn.endswith('.lean') and fn not in produced:
+                os.remove(os.path.join(GEN_DIR, fn))
+        for fn in sorted(produced):
+            with open(os.path.join(tmpdir, fn), encoding='utf-8') as f:
+                write_if_changed(os.path.join(GEN_DIR, fn), f.read())
+        return True
+    finally:
+        shutil.rmtree(tmpdir, ignore_errors=True)
+
+
+def _load_gen_json(info, tag):
+    import json
+    try:
+        info[tag + '_failed'] = json.load(open(os.path.join(GEN_DIR, tag + '_failed.json')))
+        info[tag + '_obligations'] = json.load(open(os.path.join(GEN_DIR, tag + '_obligations.json')))
+    except Exception as e:  # noqa: BLE001
+        info['failed'].append({'id': tag, 'log': repr(e)})
+
+
+def gen_C02(info):
+    """instruction table (templates + transcriptions) x translated programs -> Gen/C02_<year>.lean"""
+    if _gen_tool(info, 'gen_c02.py', 'c02'):
+        _load_gen_json(info, 'c02')
+    info['extra_targets'] += ['HabuVerif.Gen.C02']
+
+
+def genall_c02(info):
+    gen_C02(info)
+
+
 def generate_all():
     """used by setup: everything that `lake build` of the whole library needs"""
     info = {'extra_targets': [], 'failed': []}
